@@ -50,6 +50,8 @@ def gen_actions(rng, mode, ns, rounds, q1, q2, mq, heavy, tests=False):
                 ident += 1
             if tests and rng.chance(1, 25):
                 acts.setdefault(r, []).append("mtest s%d" % (i + 1))
+            if tests and rng.chance(1, 30):
+                acts.setdefault(r, []).append("flush s%d" % (i + 1))      # CS101_Slave_flushQueues: everything waiting is dropped
         r += rng.range(1, 4)
     return acts, info
 
@@ -82,6 +84,23 @@ def oracle(ck, sid, lines, out, m, info):
     lost_since_up = {}     # link key -> frames lost anywhere on the line since that link was reported AVAILABLE
     up_seen = set()
     it = iter([l for l in lines if l.split()[0] in ("enq1", "enq2", "msend")])
+    # flushQueues leaves no trace line of its own: replay the script order of enq / flush per slave to know what a flush dropped
+    flush_after = {}      # (slave index, number of enq lines of that slave seen so far) -> True
+    nenq = {}
+    for l in lines:
+        w = l.split()
+        if w[0] in ("enq1", "enq2"):
+            nenq[int(w[1][1:]) - 1] = nenq.get(int(w[1][1:]) - 1, 0) + 1
+        elif w[0] == "flush":
+            flush_after[(int(w[1][1:]) - 1, nenq.get(int(w[1][1:]) - 1, 0))] = True
+    seen_enq = {}
+
+    def apply_flush(i):
+        if flush_after.pop((i, seen_enq.get(i, 0)), None):
+            for cls in (1, 2):
+                lk = links[("s2m", i, cls)]
+                lk.displaced.update(lk.q)
+                lk.q = []
     addr_to_i = {L.saddr(al, i): i for i in range(ns)}
     for e in ev:
         if e[0] == "enq":
@@ -89,6 +108,8 @@ def oracle(ck, sid, lines, out, m, info):
             while not l.startswith("enq"):
                 l = next(it)
             a = bytes.fromhex(l.split()[2])
+            apply_flush(e[1] - 1)
+            seen_enq[e[1] - 1] = seen_enq.get(e[1] - 1, 0) + 1
             lk = links[("s2m", e[1] - 1, e[2])]
             isfull = len(lk.q) >= lk.cap
             if bool(e[3]) != isfull:
@@ -167,6 +188,9 @@ def oracle(ck, sid, lines, out, m, info):
                 if hit and lk.sent:
                     lk.exempt.add(lk.sent[-1])
             m["failures"] = m.get("failures", 0) + 1
+    for (i, _n) in list(flush_after):          # a flush after the last enqueue of that slave
+        seen_enq[i] = _n
+        apply_flush(i)
     settled = m["settled"]
     for (dr, i, cls), lk in links.items():
         who = "slave %d class %d -> master" % (i + 1, cls) if dr == "s2m" else "master -> slave %d" % (i + 1)
